@@ -295,7 +295,16 @@ func (w *world) runAccess(x *consumer, ctx context.Context) {
 	}
 	if len(x.invs) > 0 {
 		last := x.invs[len(x.invs)-1]
-		if err == last.err {
+		// the same error value may also be the resolver's current (error) result, e.g.
+		// context.Canceled returned by a resolver whose root context was cancelled:
+		// then it cannot be told whose result Access returned
+		ambiguous := false
+		for _, rc := range w.calls {
+			if err != nil && rc.err == err && rc.returned != 0 && rc.returned <= ret {
+				ambiguous = true
+			}
+		}
+		if err == last.err && !ambiguous {
 			// the callback's own result: its value must not have been dropped before the callback returned
 			if last.rc != nil && !last.shared && last.rc.rel > 0 && last.rc.relAt < last.end {
 				c.Fail("C10.A3.result-of-invalidated-invocation", "Access returned the result of invocation %d although its value %d had been dropped (release function ran) before that invocation returned", last.n, last.rc.n)
